@@ -44,6 +44,7 @@ namespace vf
       std::size_t byte0 = 0, line0 = 1, column0 = 1;  // initial counters of the input
       int tree_sel = -1;  // >= 0: this configuration builds a parse tree with selector number tree_sel
       bool scopes = false;  // C13: run with a root state, check scoping of states / action families / controls
+      bool mustif = false;  // C05: the control is must_if< errs, observer >::control
    };
 
    struct gram_entry
@@ -609,7 +610,7 @@ namespace vf
       };
       std::map< std::tuple< int, std::size_t, std::size_t >, mrun > models;
       auto model_for = [ & ]( const cfg_entry& cf ) -> mrun& {
-         const int which = ( !cf.have_act || cf.scopes ) ? 2 : cf.actions ? 0 : 1;
+         const int which = ( ( !cf.have_act || cf.scopes ) ? 2 : cf.actions ? 0 : 1 ) + ( cf.mustif ? 10 : 0 );
          const auto key = std::make_tuple( which, cf.byte0, cf.column0 );
          auto it = models.find( key );
          if( it != models.end() ) {
@@ -621,9 +622,10 @@ namespace vf
          r.mm->as = c.as;
          r.mm->byte0 = long( cf.byte0 );
          r.mm->col0 = long( cf.column0 );
-         r.mm->ignore_actions = ( which == 2 );
+         r.mm->ignore_actions = ( which % 10 == 2 );
+         r.mm->use_must_if = cf.mustif;
          r.mm->build_tree = !ge.sel_modes.empty();
-         r.want = r.mm->run_cfg( which != 1 );
+         r.want = r.mm->run_cfg( which % 10 != 1 );
          r.ev = r.mm->events;
          return r;
       };
@@ -697,7 +699,7 @@ namespace vf
             if( got.k == pm::RAISED ) {
                // C05: identity, message, position range, consistency of what()
                const pm::node& bn = g.nodes[ std::size_t( want.blame ) ];
-               const std::string wantmsg = !want.msg.empty() ? want.msg : !bn.errmsg.empty() ? bn.errmsg : "parse error matching " + bn.tname;
+               const std::string wantmsg = !want.msg.empty() ? want.msg : ( cf.mustif && !bn.mi_msg.empty() ) ? bn.mi_msg : !bn.errmsg.empty() ? bn.errmsg : "parse error matching " + bn.tname;
                if( got.message != wantmsg ) {
                   vs.push_back( { "C05", "raise-identity", "parse_error message '" + got.message + "', expected '" + wantmsg + "'" } );
                }
